@@ -430,6 +430,8 @@ def check_real(shells, convs, with_eri, rng, viols, errs, tag):
             viols.append(cm.viol("%s: shape %s vs %s" % (what, out.shape, want.shape), qty + "_shape"))
             return
         fl = gfl * rfl * float(np.abs(T).max() ** 2 if "with transform" in what else 1.0) if "momentum_integral" in what else 0.0
+        if "overlap_integral_asymmetric" in what:
+            fl = 1.0  # only the off-diagonal block is returned: for far-apart shells it is ~1e-280, the natural scale is 1
         sc = max(float(np.abs(want).max()), fl) + 1e-300
         e = float(np.abs(out - want).max()) / sc
         errs[qty] = max(errs.get(qty, 0.0), e)
